@@ -99,14 +99,9 @@ class Helper:
 
 
 def _simple_arg(e):
-    """an argument that may be substituted for every use of the parameter: evaluating it again gives the same object and has no effect"""
-    if isinstance(e, (ast.Name, ast.Constant)):
-        return True
-    if isinstance(e, ast.Attribute):
-        return _simple_arg(e.value)
-    if isinstance(e, ast.Subscript):
-        return _simple_arg(e.value) and isinstance(e.slice, (ast.Constant, ast.Name))
-    return False
+    """an argument that may stand for every use of the parameter: a local name or a constant (an attribute / subscript read is bound
+    to the parameter by an assignment instead - the temporaries pass writes it out again where that is provably the same)"""
+    return isinstance(e, (ast.Name, ast.Constant))
 
 
 class _Subst(ast.NodeTransformer):
@@ -165,7 +160,7 @@ def _uses(body, name):
                isinstance(x.ctx, ast.Load))
 
 
-def _instantiate(h, call, skip_first, caller_names, self_expr=None):
+def _instantiate(h, call, skip_first, caller_names, self_expr=None, working=()):
     """(prologue statements, body statements) of the helper for this call, or None"""
     bound = _bind(h, call, skip_first)
     if bound is None:
@@ -181,9 +176,16 @@ def _instantiate(h, call, skip_first, caller_names, self_expr=None):
     for loc in sorted(assigned - set(h.params) - set(h.kwonly)):
         if loc in caller_names:
             rename[loc] = f'{loc}__{h.node.name}'
+    argnames = [y.id for _, a_ in bound for y in ast.walk(a_) if isinstance(y, ast.Name)]
     for p, a in bound:
         if p not in assigned and _simple_arg(a):
             mapping[p] = a
+            continue
+        if p in assigned and isinstance(a, ast.Name) and a.id in working and argnames.count(a.id) == 1 and \
+                (a.id == p or a.id not in assigned | set(h.params) | set(h.kwonly)):
+            # the caller's variable is overwritten by this very call: the helper may use it as its working variable
+            if a.id != p:
+                rename[p] = a.id
             continue
         nm = f'{p}__{h.node.name}' if p in caller_names and not (isinstance(a, ast.Name) and a.id == p) else p
         if isinstance(a, ast.Name) and a.id == nm:
@@ -328,6 +330,9 @@ def inline_helpers(tree, modname):
             elif isinstance(n, ast.ClassDef) and outer is None:
                 collect(n.body, f'{prefix}.{n.name}', n, None)
     collect(tree.body, modname, None, None)
+    mcls = {n.name: n for n in tree.body if isinstance(n, ast.ClassDef)}
+    for n in mcls.values():
+        n._module_classes = mcls
     helpers = {k: h for k, h in helpers.items() if h.ok}
     if not helpers:
         return set()
@@ -396,6 +401,20 @@ def _lookup(call, fn, cls, helpers):
             return h, False, None
     elif isinstance(f, ast.Attribute) and isinstance(f.value, ast.Name) and cls is not None:
         h = helpers.get(('class', cls.name, f.attr))
+        if h is None:
+            # a helper defined in a base class of the same module (single inheritance chains only)
+            seen = 0
+            c = cls
+            while h is None and seen < 5 and len(getattr(c, 'bases', [])) == 1 and isinstance(c.bases[0], ast.Name):
+                base = getattr(c, '_module_classes', {}).get(c.bases[0].id)
+                if base is None:
+                    break
+                # not overridden on the way
+                h = helpers.get(('class', base.name, f.attr))
+                c = base
+                seen += 1
+            if h is not None and any(isinstance(x, FUNC) and x.name == f.attr for x in cls.body):
+                h = None
         if h is not None and h.node is not fn:
             selfname = fn.args.args[0].arg if fn.args.args else None
             if h.kind == 'static' and f.value.id in (selfname, cls.name):
@@ -411,6 +430,9 @@ def _inline_in(fn, cls, helpers, done):
             x._outer = fn
     changed = False
     caller_names = _names(fn)
+    caller_bound = {a.arg for a in fn.args.args + fn.args.kwonlyargs + fn.args.posonlyargs} | \
+        {y.id for x in _walk_no_nested(fn.body) for y in [x] if isinstance(y, ast.Name) and isinstance(y.ctx, ast.Store)}
+
 
     # 1. expression helpers, anywhere
     class ExprInl(ast.NodeTransformer):
@@ -431,6 +453,11 @@ def _inline_in(fn, cls, helpers, done):
             bound = _bind(h, n, skip)
             if bound is None:
                 return n
+            if h.kind != 'nested':
+                free = {y.id for y in ast.walk(h.expr) if isinstance(y, ast.Name) and isinstance(y.ctx, ast.Load)} - set(h.params) - \
+                    set(h.kwonly) - h.assigned()
+                if free & caller_bound:
+                    return n
             assigned = h.assigned()
             mapping = {}
             if skip:
@@ -464,12 +491,12 @@ def _inline_in(fn, cls, helpers, done):
     ExprInl().visit(fn)
 
     # 2. statement helpers at statement level
-    def block(blk):
+    def block(blk, in_try=False):
         nonlocal changed
         i = 0
         while i < len(blk):
             st = blk[i]
-            rep = _splice(st, fn, cls, helpers, caller_names)
+            rep = _splice(st, fn, cls, helpers, caller_names, in_try, caller_bound)
             if rep is not None:
                 h, stmts = rep
                 blk[i:i + 1] = stmts
@@ -480,10 +507,10 @@ def _inline_in(fn, cls, helpers, done):
             for fld in ('body', 'orelse', 'finalbody'):
                 sub = getattr(st, fld, None)
                 if isinstance(sub, list) and sub and isinstance(sub[0], ast.stmt) and not isinstance(st, FUNC + (ast.ClassDef,)):
-                    block(sub)
+                    block(sub, in_try or (isinstance(st, ast.Try) and fld == 'body'))
             if isinstance(st, ast.Try):
                 for hd in st.handlers:
-                    block(hd.body)
+                    block(hd.body, in_try)
             i += 1
     block(fn.body)
     return changed
@@ -497,7 +524,7 @@ def _key(h):
     return ('class', h.owner.name, h.node.name)
 
 
-def _splice(st, fn, cls, helpers, caller_names):
+def _splice(st, fn, cls, helpers, caller_names, in_try=False, caller_bound=frozenset()):
     if isinstance(st, ast.Assign) and isinstance(st.value, ast.Call):
         call = st.value
 
@@ -521,7 +548,25 @@ def _splice(st, fn, cls, helpers, caller_names):
         return None
     h, skip, selfx = r
     # assignment targets must not be read by the helper body through the caller's names (the target is written only at the returns)
-    inst = _instantiate(h, call, skip, caller_names, selfx)
+    own_targets = set()
+    if isinstance(st, ast.Assign):
+        for t in st.targets:
+            for y in (t.elts if isinstance(t, (ast.Tuple, ast.List)) else [t]):
+                if isinstance(y, ast.Name):
+                    own_targets.add(y.id)
+        # a target is overwritten when the helper returns: a helper local of the same name may use it before that, unless the
+        # call's arguments still need the caller's value (they are evaluated first, so only a non-substituted use matters)
+        working = set() if in_try else set(own_targets)
+        own_targets -= {y.id for a in list(call.args) + [k.value for k in call.keywords] for y in ast.walk(a) if isinstance(y, ast.Name)}
+    else:
+        working = set()
+    # (e) a name the helper reads from the module must not be a local of the caller
+    if h.kind != 'nested':
+        free = {y.id for x in h.body for y in ast.walk(x) if isinstance(y, ast.Name) and isinstance(y.ctx, ast.Load)} - \
+            set(h.params) - set(h.kwonly) - h.assigned()
+        if free & caller_bound:
+            return None
+    inst = _instantiate(h, call, skip, caller_names - own_targets, selfx, working)
     if inst is None:
         return None
     prologue, body = inst
